@@ -297,9 +297,9 @@ theorem two_calls_reject {b : Builder} {c1 c2 : RefineCall}
     (e1 : ∀ {b b'}, f1 b = .ok b' → Effect b b' c1) (hd1 : c1.dropped = false)
     (r1 : ∀ {b : Builder}, (∃ x, x ≠ .null ∧ γB b x = true) →
       (∀ x, x ≠ .null → (γB b x && den c1 x) = false) → ∀ b', f1 b ≠ .ok b')
-    (r2 : ∀ {b : Builder}, b.wf = true → (∃ x, x ≠ .null ∧ γB b x = true) →
+    (r2 : ∀ {b : Builder}, b.wip.lenOk = true → (∃ x, x ≠ .null ∧ γB b x = true) →
       (∀ x, x ≠ .null → (γB b x && den c2 x) = false) → ∀ b', f2 b ≠ .ok b')
-    (hw : b.wf = true)
+    (hw : b.wip.lenOk = true)
     (h1 : ∃ x, x ≠ .null ∧ γB b x = true)
     (h2 : ∀ x, x ≠ .null → (γB b x && (den c1 x && den c2 x)) = false) (b' : Builder) :
     (f1 b).bind f2 ≠ .ok b' := by
@@ -309,10 +309,10 @@ theorem two_calls_reject {b : Builder} {c1 c2 : RefineCall}
     rw [hf] at h
     simp only [Res.bind] at h
     have e := e1 hf
-    have g := e.2.2
+    have g := e.2.2.2
     simp only [hd1, Bool.false_eq_true, if_false] at g
     by_cases hne : ∃ x, x ≠ .null ∧ γB b1 x = true
-    · exact r2 (e.2.1 hw) hne (fun x hx => by rw [g, Bool.and_assoc]; exact h2 x hx) b' h
+    · exact r2 (e.2.2.1 hw) hne (fun x hx => by rw [g, Bool.and_assoc]; exact h2 x hx) b' h
     · refine r1 h1 (fun x hx => ?_) b1 hf
       rw [← g]
       cases hg : γB b1 x
@@ -324,7 +324,7 @@ theorem two_calls_reject {b : Builder} {c1 c2 : RefineCall}
 
 /-- a range constraint that leaves no non-null value, where there was one, is not
 accepted — unless it is an exclusive bound at an infinity -/
-theorem step_rejects {b : Builder} {c : RefineCall} (hw : b.wf = true)
+theorem step_rejects {b : Builder} {c : RefineCall} (hw : b.wf = true) (hlen : b.wip.lenOk = true)
     (hr : c.isRange = true) (hx : c.exclusiveInfinite = false)
     (h1 : ∃ x, x ≠ .null ∧ γB b x = true)
     (h2 : ∀ x, x ≠ .null → (γB b x && den c x) = false) (b' : Builder) :
@@ -347,7 +347,7 @@ theorem step_rejects {b : Builder} {c : RefineCall} (hw : b.wf = true)
       simp only [Bool.and_eq_true, Bool.or_eq_true] at hwf
       have hk : b.orig.isKnown = false := by simp [Value.isKnown, Payload.isKnown, Payload.unmark1, hv]
       rw [hk] at hwf
-      have hkind := hwf.1.2
+      have hkind := hwf.2
       simp only [Bool.false_eq_true, false_or] at hkind
       rw [hty] at hkind
       -- kindOk .dyn r = true only for r = .unref
@@ -377,9 +377,7 @@ theorem step_rejects {b : Builder} {c : RefineCall} (hw : b.wf = true)
     simp only [Bool.false_eq_true, if_false] at h
     split at h
     · simp at h
-    · have hlen : b.wip.lenOk = true := by
-        unfold Builder.wf at hw; simp only [Bool.and_eq_true] at hw; exact hw.2
-      cases c with
+    · cases c with
       | notNull => simp [RefineCall.isRange] at hr
       | null => simp [RefineCall.isRange] at hr
       | numLower a incl => exact stepNumLower_rejects hx h1 h2 b' h
@@ -394,15 +392,14 @@ theorem step_rejects {b : Builder} {c : RefineCall} (hw : b.wf = true)
           stepNumLower_effect (dropped_lower_incl _)
           (fun h1 h2 => stepNumLower_rejects (exclusiveInfinite_lower_incl _) h1 h2)
           (fun _ h1 h2 => stepNumUpper_rejects (exclusiveInfinite_upper_incl _) h1 h2)
-          hw h1 (fun x hx => by rw [← den_rangeInclusive]; exact h2 x hx) b' h
+          hlen h1 (fun x hx => by rw [← den_rangeInclusive]; exact h2 x hx) b' h
       | collectionLength n =>
         refine two_calls_reject (c1 := .lenLower n) (c2 := .lenUpper n)
           (fun b => stepLenLower b n) (fun b => stepLenUpper b n)
           stepLenLower_effect rfl
           (fun h1 h2 => stepLenLower_rejects h1 h2)
-          (fun hw' h1 h2 => stepLenUpper_rejects (by
-            unfold Builder.wf at hw'; simp only [Bool.and_eq_true] at hw'; exact hw'.2) h1 h2)
-          hw h1 (fun x hx => by rw [← den_collectionLength]; exact h2 x hx) b' h
+          (fun hw' h1 h2 => stepLenUpper_rejects hw' h1 h2)
+          hlen h1 (fun x hx => by rw [← den_collectionLength]; exact h2 x hx) b' h
 
 /-- `Null()` on a receiver that does not admit null is not accepted -/
 theorem step_null_rejects {b : Builder} (hd : b.isDyn = false) (h1 : γB b .null = false) (b' : Builder) :
